@@ -13,7 +13,7 @@ from scipy.sparse import csr_array
 from common import coq_eval, parse_ints, try_coq
 from solvers import COMBOS, Prepared, dense_design, expanded_basis, forces_from_fc, solver_cells
 
-UNITS = ["ReshapeGen", "SolverStruct", "BatchGen"]
+UNITS = ["ReshapeGen", "SolverStruct", "BatchGen", "DesignGen"]
 PROPS = ["props/C05.v"]
 ASSUMPTIONS = ["conditioning and rounding are outside the theorems: recovery is checked to 1e-6 relative on designs with condition number < 1e8",
                "sparse/dense products are exact real products in the model"]
@@ -78,6 +78,36 @@ def check(ctx):
                 ctx.fail("correspondence", f"C05/corr/reshape_O{m}", f"reshape order {m} N={N} n={n} nx={nx}: entry (row {int(rows[k])}, col {int(cols[k])}) goes to {got[k]} in the implementation, {model[k]} in the translated chain",
                          replay={"order": m, "N": N, "n": n, "nx": nx, "row": int(rows[k]), "col": int(cols[k]), "impl": got[k], "model": model[k]}, has_input=True)
     try_coq(ctx, "C05/corr/reshape/model", corr)
+    # ---- correspondence: Kronecker products of displacements (gen/DesignGen.v: which digit of the flat index each factor reads)
+    def kron_corr():
+        from symfc.solvers.solver_O2O3 import set_disps_N3N3
+        from symfc.solvers.solver_O2O3O4 import set_disps_N3N3N3
+        sizes = [3, 6] if ctx.quick else [3, 6, 9]
+        exprs = []
+        for N3 in sizes:
+            exprs.append(f"flat_map (fun r => [zdigit {N3} 2 0 r; zdigit {N3} 2 1 r]) (map Z.of_nat (seq 0 {N3 ** 2}))")
+            exprs.append(f"flat_map (fun r => [zdigit {N3} 3 0 r; zdigit {N3} 3 1 r; zdigit {N3} 3 2 r]) (map Z.of_nat (seq 0 {N3 ** 3}))")
+        res = coq_eval("c05_kron", ["From SymfcV Require Import DesignPre.", "From SymfcG Require Import DesignGen."], [], exprs)
+        for si, N3 in enumerate(sizes):
+            d = rng.normal(size=(3, N3))
+            dig2 = np.array(parse_ints(res[2 * si])).reshape(-1, 2)
+            dig3 = np.array(parse_ints(res[2 * si + 1])).reshape(-1, 3)
+            m2 = d[:, dig2[:, 0]] * d[:, dig2[:, 1]]
+            m3 = d[:, dig3[:, 0]] * d[:, dig3[:, 1]] * d[:, dig3[:, 2]]
+            i2 = np.asarray(set_disps_N3N3(d, sparse=False))
+            i3 = np.asarray(set_disps_N3N3N3(d, sparse=False))
+            i32 = np.asarray(set_disps_N3N3N3(d, sparse=False, disps_N3N3=i2))
+            i2s = set_disps_N3N3(d, sparse=True).toarray()
+            i3s = set_disps_N3N3N3(d, sparse=True).toarray()
+            ctx.traces += 1
+            ctx.case({"kronecker": N3}, nontrivial=True)
+            ctx.count("kronecker-products")
+            for nm, a, b in (("set_disps_N3N3", i2, m2), ("set_disps_N3N3N3", i3, m3), ("set_disps_N3N3N3(disps_N3N3=...)", i32, m3),
+                             ("set_disps_N3N3(sparse)", i2s, m2), ("set_disps_N3N3N3(sparse)", i3s, m3)):
+                if a.shape != b.shape or not np.allclose(a, b, rtol=1e-13, atol=0):
+                    ctx.fail("correspondence", "C05/corr/kronecker", f"{nm} for 3N={N3}: the products differ from the regenerated model (digits of the flat index)",
+                             replay={"function": nm, "N3": N3, "disps": d.tolist()}, has_input=True)
+    try_coq(ctx, "C05/corr/kronecker/model", kron_corr)
     # direct oracle on reshape: the documented target (independent of the Coq model)
     for (m, N, n, nx, rows, cols), (got, shape) in zip(cases, impl):
         ctx.case({"reshape": m, "N": N, "n": n, "nx": nx, "entries": len(rows)}, nontrivial=N > 1)
